@@ -9,6 +9,7 @@ package zzrepo
 import (
 	"bytes"
 	"fmt"
+	"io"
 	"sort"
 	"strings"
 	"sync"
@@ -259,8 +260,29 @@ func (s *RefStore) Copy(a, b string) error {
 	s.Logs[b] = append([]*ref.Reflog{}, s.Logs[a]...)
 	return nil
 }
+
+type logReader struct {
+	logs []*ref.Reflog
+	i    int
+}
+
+func (r *logReader) Read() (*ref.Reflog, error) {
+	if r.i < 0 {
+		return nil, io.EOF
+	}
+	l := r.logs[r.i]
+	r.i--
+	return l, nil
+}
+func (r *logReader) Close() error { return nil }
+
+// LogReader reads a ref's log newest first, like the real stores.
 func (s *RefStore) LogReader(k string) (ref.ReflogReader, error) {
-	return nil, fmt.Errorf("not implemented")
+	logs, ok := s.Logs[k]
+	if !ok {
+		return nil, ref.ErrKeyNotFound
+	}
+	return &logReader{logs: logs, i: len(logs) - 1}, nil
 }
 func (s *RefStore) NewTransaction(tx *ref.Transaction) (*uuid.UUID, error) {
 	if err := s.F.before("ref.NewTransaction"); err != nil {
@@ -301,9 +323,19 @@ func (s *RefStore) DeleteTransaction(id uuid.UUID) error {
 	delete(s.Txs, id)
 	return nil
 }
-func (s *RefStore) GCTransactions(d time.Duration) ([]uuid.UUID, error)             { return nil, nil }
-func (s *RefStore) GetTransactionLogs(id uuid.UUID) (map[string]*ref.Reflog, error) { return nil, nil }
-func (s *RefStore) ListTransactions(o, l int) ([]*ref.Transaction, error)           { return nil, nil }
+func (s *RefStore) GCTransactions(d time.Duration) ([]uuid.UUID, error) { return nil, nil }
+func (s *RefStore) GetTransactionLogs(id uuid.UUID) (map[string]*ref.Reflog, error) {
+	m := map[string]*ref.Reflog{}
+	for k, logs := range s.Logs {
+		for _, l := range logs {
+			if l.Txid != nil && *l.Txid == id {
+				m[k] = l
+			}
+		}
+	}
+	return m, nil
+}
+func (s *RefStore) ListTransactions(o, l int) ([]*ref.Transaction, error) { return nil, nil }
 
 // ---- builders over the real Save* API ----
 
